@@ -141,6 +141,26 @@ Definition check_refX (k : cmd * list nat * trace) : bool :=
       | _ => false
       end
   end.
+(* C02 with loop exits: CPython vs the strict interpreter of Model/SemXS.v (the oracle goes on after a
+   failed read), the fragment, and the instance of theorem C02X_sound on the execution *)
+Definition check_refXs (k : cmd * list nat * trace) : bool :=
+  match k with
+  | (c, ds, obs) =>
+      match runXs 4000 c renv0 (ds ++ zeros) with
+      | DoneX _ tr _ _ => trace_eqb tr obs
+      | _ => false
+      end
+  end.
+Definition check_soundx_instance (k : cmd * list nat * trace) : bool :=
+  match k with
+  | (c, ds, _) =>
+      negb (okx c) ||
+      match runXs 4000 c renv0 (ds ++ zeros) with
+      | DoneX _ tr _ _ => forallb (fun e => match snd e with Some _ => mem_alt (snd e) (seenx c aenv0 (fst e)) | None => true end) tr
+      | _ => false
+      end
+  end.
+Definition frag_okx (c : cmd) : bool := okx c.
 Definition check_visible_instance (k : cmd * list nat * trace) : bool :=
   match k with
   | (c, ds, _) =>
@@ -170,7 +190,7 @@ Definition check_sound_instance (k : cmd * list nat * trace) : bool :=
   end.
 '''
 
-IMPORTS = ['Model.PyCore', 'Model.Reach', 'Model.ReachX', 'Model.Sem', 'Model.SemX', 'Proofs.ReachComplete']
+IMPORTS = ['Model.PyCore', 'Model.Reach', 'Model.ReachX', 'Model.Sem', 'Model.SemX', 'Model.SemXS', 'Proofs.ReachComplete']
 
 
 def impl_case_term(tree_body, obs):
